@@ -6,7 +6,7 @@
     Stated for every description [d], every pair of dicts and every re-ordering (indeed every dict with the same
     key -> value map, duplicates of shadowed keys included).  The carried field and the key-set refusal are covered:
     the statement is an equality of results, errors included. *)
-From Coq Require Import ZArith List Bool.
+From Coq Require Import ZArith List Bool Permutation.
 From Bermuda Require Import Model.Base Model.Basis Proofs.BasisKeyOrder.
 Import ListNotations.
 Local Open Scope Z_scope.
@@ -20,6 +20,19 @@ Theorem C04_values_add_ignores_key_order : forall d curr next next',
   same_map next' next -> values_add d curr next' = values_add d curr next.
 Proof. intros d curr next next' H. exact (values_combine_second_key_order _ _ curr next next' H). Qed.
 Print Assumptions C04_values_add_ignores_key_order.
+
+(* ... and the order of the FIRST cell's dict only permutes the resulting dict (same fields, same values) *)
+Theorem C04_values_diff_first_key_order_permutes_result : forall d prev prev' next out,
+  Permutation prev prev' -> values_diff d prev next = Ok out ->
+  exists out', values_diff d prev' next = Ok out' /\ Permutation out out'.
+Proof. intros d prev prev' next out P H. exact (values_combine_first_key_order _ _ prev prev' next out P H). Qed.
+Print Assumptions C04_values_diff_first_key_order_permutes_result.
+
+Theorem C04_values_add_first_key_order_permutes_result : forall d curr curr' next out,
+  Permutation curr curr' -> values_add d curr next = Ok out ->
+  exists out', values_add d curr' next = Ok out' /\ Permutation out out'.
+Proof. intros d curr curr' next out P H. exact (values_combine_first_key_order _ _ curr curr' next out P H). Qed.
+Print Assumptions C04_values_add_first_key_order_permutes_result.
 
 Definition PLb : str := [112;97;105;100;95;108;111;115;115].                       (* "paid_loss" *)
 Definition RLb : str := [114;101;112;111;114;116;101;100;95;108;111;115;115].      (* "reported_loss" *)
